@@ -305,6 +305,12 @@ pub fn run_file(t: &Templates, seed: u64, inp: &str, outp: &str) {
                 let g = kestrel_crypto::PrivateKey::generate();
                 json!({"ok": len_ok && not_constant && g.as_bytes().len() == 32, "random": hex(&a), "privkey": hex(g.as_bytes())})
             }
+            "rand32" => {
+                // nothing but 32-byte draws, all of them recorded: bytes handed out twice at ANY offset must show
+                let a = kestrel_crypto::secure_random(32);
+                let g = kestrel_crypto::PrivateKey::generate();
+                json!({"ok": a.len() == 32 && g.as_bytes().len() == 32, "random": hex(&a), "privkey": hex(g.as_bytes())})
+            }
             "clear" => clear(t, seed, &scn),
             "golden" => crate::golden::golden(t, &scn),
             "mkgolden" => crate::golden::mkgolden(&scn),
